@@ -313,9 +313,55 @@ func (h *H) stepForge() {
 	when := h.nextTime()
 	_, vs := h.variants(m.M, txns, when)
 	v := vs[h.Rng.Intn(len(vs))]
+	if ov := h.overflowInputVariant(m.M, when); ov != nil && h.Rng.Intn(2) == 0 {
+		v = *ov
+	} else if h.Rng.Intn(8) == 0 {
+		// make outputs whose accrued hours overflow (needed by the variant above) more common
+		for _, x := range vs {
+			if x.Legacy {
+				v = x
+			}
+		}
+	}
 	h.log("forge " + v.Label)
 	h.offerForged(m, v)
 	h.checkState(m, "forge")
+}
+
+// overflowInputVariant builds a block whose transaction spends an ordinary input followed by an
+// input whose accrued hours overflow the final addition (the documented legacy exception: it counts
+// as zero hours), with output hours one above what the ordinary input provides: hours are created.
+func (h *H) overflowInputVariant(m *ledger.Model, when uint64) *variant {
+	var ord, ovf *coin.UxOut
+	for _, ux := range sortedUtxo(m) {
+		ux := ux
+		if _, ok := h.Chain.KeyFor(ux.Body.Address); !ok {
+			continue
+		}
+		a, cls := ledger.Accrued(ux, m.HeadTime())
+		switch {
+		case cls == ledger.AccrualFinalOverflow && ovf == nil:
+			ovf = &ux
+		case cls == ledger.AccrualOK && ord == nil && a.Sign() > 0 && a.IsUint64() && a.Uint64() < 1<<62:
+			ord = &ux
+		}
+	}
+	if ord == nil || ovf == nil {
+		return nil
+	}
+	hrs, _ := availableHours(m, []coin.UxOut{*ord})
+	coins := ord.Body.Coins + ovf.Body.Coins
+	if coins < ord.Body.Coins {
+		return nil
+	}
+	extra := uint64(1)
+	if h.Rng.Intn(2) == 0 {
+		extra = 1 + uint64(h.Rng.Int63n(int64(hrs)))
+	}
+	t := h.Chain.MakeTxn([]coin.UxOut{*ord, *ovf}, []fix.Out{{Addr: h.randAddr(), Coins: coins, Hours: hrs + extra}})
+	b := h.Chain.SignBlock(rawBlock(m, when, coin.Transactions{t}))
+	h.R.Count("forge.built.hours-created-beside-overflow-input", 1)
+	return &variant{Label: "hours-created-beside-overflow-input", B: b}
 }
 
 func (h *H) offerForged(m *Mon, v variant) {
